@@ -440,7 +440,8 @@ class KeyHistory(object):
             if mk.passphrase is not None:
                 # a component added to a protected key is protected with the same passphrase (as a caller would)
                 pass
-        ms = MSub(bytes.fromhex(str(sub.fingerprint)), st['alg'])
+        # the fingerprint the key had before it was adopted as a subkey: adoption does not make it another key
+        ms = MSub(fp, st['alg'])
         bs = [s for s in sub.__sig__ if int(s.type) == 0x18]
         ms.sigs.append(self._rec(bytes(bs[-1]), 'bind', name, usage=st['usage']))
         mk.subs.append(ms)
